@@ -627,11 +627,44 @@ _ONE_IN_TEN = [True] + [False] * 9
 
 
 @st.composite
+def very_long_line_pair(draw, a):
+    """A gets a cell whose source / stream text / html output holds one line of 3 100 - 4 500 characters; B edits a few characters of it
+    and (mostly) changes how the line ends: CRLF -> LF, a final line without newline that is followed by more lines in B, a trailing
+    newline added or removed."""
+    unit = draw(st.sampled_from(["{'x': 1.5, 'y': [1, 2, 3]}, ", "<td class=\"c\">1.5</td>", "0.125, "]))
+    line = draw(st.sampled_from(["data = [", "<tr>", ""])) + unit * draw(st.integers(3100 // len(unit) + 1, 4500 // len(unit)))
+    edited = line.replace("1.5" if "1.5" in line else "0.125", "2.75", draw(st.integers(1, 3)))
+    how = draw(st.sampled_from(["crlf_to_lf", "unterminated_then_more", "newline_added", "newline_removed", "same", "lf_to_crlf"]))
+    ta, tb = {"crlf_to_lf": ("before\r\n%s\r\nafter\r\n", "before\n%s\nafter\n"), "lf_to_crlf": ("before\n%s\nafter\n", "before\r\n%s\r\nafter\r\n"),
+              "unterminated_then_more": ("before\n%s", "before\n%s\n<p>done</p>\n"), "newline_added": ("%s", "%s\n"),
+              "newline_removed": ("before\n%s\n", "before\n%s"), "same": ("before\n%s\nafter\n", "before\n%s\nafter\n")}[how]
+    where = draw(st.sampled_from(["source", "stream", "html"]))
+    minor = a["nbformat_minor"]
+    c = {"cell_type": "code", "metadata": {}, "source": "render()", "execution_count": 1, "outputs": []}
+    if minor >= 5:
+        c["id"] = _fresh_id(_ids(a), "long")
+    pos = draw(st.integers(0, len(a["cells"])))
+    a["cells"].insert(pos, c)
+    b = copy.deepcopy(a)
+    for nb_, t, ln in ((a, ta, line), (b, tb, edited)):
+        cc = nb_["cells"][pos]
+        if where == "source":
+            cc["source"] = t % ln
+        elif where == "stream":
+            cc["outputs"] = [{"output_type": "stream", "name": "stdout", "text": t % ln}]
+        else:
+            cc["outputs"] = [{"output_type": "display_data", "data": {"text/html": t % ln, "text/plain": "<table>"}, "metadata": {}}]
+    return a, b, "very_long_line"
+
+
+@st.composite
 def pair(draw, max_cells=5, dup_ids=False):
     """(A, B, relation). dup_ids: allow 'duplicate cell keeping its id' (schema-valid; nbformat would re-id it on read)."""
     a = draw(notebook(max_cells=max_cells))
     if draw(st.sampled_from(_ONE_IN_TEN)):
         return a, draw(notebook(max_cells=max_cells)), "unrelated"
+    if draw(st.sampled_from(range(80))) == 40:
+        return draw(very_long_line_pair(a))
     if draw(st.sampled_from(range(14))) == 7:
         # B differs from A only in the JSON type of a value or two (a grade of 2 points stored as 2.0, a 0/1 flag turned into a boolean)
         if a["cells"]:
